@@ -7,6 +7,24 @@ ROOT = os.path.dirname(os.path.dirname(os.path.abspath(__file__)))
 ALL = [f"C{k:02d}" for k in range(1, 21)]
 
 CLAIMED = {
+    "C15": dict(
+        text=("Store.tla models the HDF5 object graph (objects with hard / soft / external links, two files) and the operations "
+              "create(w|a), cp, mv, ln (hard), ln (soft; external across files) and overwrite as functions on it, transcribing "
+              "fileops._copy and the group preparation of create(). TLC explores ALL histories of 2 (thorough: 3) operations over "
+              "all paths of depth <= 2 (36k / 4.5M distinct states) and checks: destination reads as the source; source gone only "
+              "for move; a failing operation changes nothing (beyond creating/truncating the destination file); object-level frame "
+              "condition (only the link named by the operation changes, no other object's content changes); write mode replaces "
+              "the file; re-creation replaces the collection; listing = recognised paths. Conformance: histories (a systematic part "
+              "pairing every operation kind with every source/destination pair and follow-up operations that expose sharing vs "
+              "independence, plus seeded random histories of 2-12 operations) are executed on two real files; after EVERY operation "
+              "both files are projected for 13 paths (content through the API, recognition, listing) and TLC applies the model's "
+              "operations step by step and compares (StoreTrace.tla)."),
+        design_ref="DESIGN.md section 6 C15, section 4.2",
+        note=("Trusted: TLC, h5py/API projection. Out of the modelled domain (never generated; a history is not judged past such a "
+              "step): link loops, root as a link source, cross-file copy onto a non-empty root, destinations behind external links; "
+              "mv is judged within one file."),
+        technique="TLA+ model checking (TLC) of the object-graph store + TLC step-by-step validation of real operation histories",
+        category="model_checking"),
     "C13": dict(
         text=("TLC explores (Create.tla / MC_Create) all sequences of up to 2-3 create() calls on one file with destinations root / "
               "group / nested group / sibling and modes w|a, where the environment yields valid chunks, chunks with one invalid "
